@@ -87,6 +87,10 @@ def layout(rng, h, o, runs, kind=None, reann=False):
                late=(o["regime"] == "stamp" and rng.random() < 0.5),
                # half of the cases hold their time.Time values in varying locations (same instants)
                zones=(rng.randrange(1, 1 << 30) if rng.random() < 0.5 else 0))
+    if o["regime"] in ("commit", "mixed") and rng.random() < 0.4:
+        # one abstract time whose versions carry Timestamp == CommitInfoStart exactly while their commit time is later
+        # (the boundary of "timestamp before CommitInfoStart": the commit time still stamps the update)
+        lay["pin"] = rng.randrange(1, 7)
     if reann and rng.random() < 0.4:
         # incremental re-annotation (C12): the annotated parents (Updates set) are annotated a second time, without a
         # ChildFilter (-2), with one that rejects every child (-1) or accepts only child k
